@@ -17,6 +17,7 @@ func init() {
 			"(Authorization OAuth2/Bearer/Basic, api_token query, form body with exact/parameterised content type, arvados_api_token cookie) x call site " +
 			"(auth.SaltToken; federation.saltedTokenProvider with stub local backend; federation.New + rpc.Conn against a byte-recording stub remote; controller Handler legacy proxy with fake database/sql driver against a byte-recording stub remote; keepstore router -> remoteProxy.Get against stub remote API + two Keep services; " +
 			"keepstore-concurrent: 2-5 callers with different tokens fetch different blocks (unique hash = attribution of every probe) from one remote through one router at overlapping times, remote answers the first probes 404/408/429/500/503 and holds probes while other callers pass (deterministic schedule of start/release steps, plus free-running cases and the minimal B-held/A-passes/B-retries interleaving for every token kind): every probe must carry its own caller's token in an allowed form, never another caller's token or an unsalted secret); " +
+			"fed-provider-multi / fed-conn-multi: ONE request context (1-4 tokens, each generated relative to one of the remotes) handed to SEVERAL remotes: the providers of 2-4 distinct remotes plus revisits (A,B,A) called one after the other or released together from a gate; through federation.New 1-4 operations on the one context (get by uuid at one remote, collection lookup by PDH that misses locally and fans out to every remote answering 404/200/5xx, federated list whose uuid filter names 2-3 remotes +/- the local cluster), sequentially or concurrently: what EACH remote received is judged for THAT remote (a salt made for a neighbour = salted-for-wrong-cluster), and afterwards the credentials in the request context must be the tokens the caller put there (they are what every later forward of the request starts from); a finding that a fresh single-remote context does not reproduce gets the suffix one-context-several-remotes; " +
 			"oracle = reference model over Go stdlib HMAC-SHA1 (cross-checked against Python hmac): every token-bearing spot the remote received must hold an allowed form of an input token (N1,N2,N4), and the unsalted secret (>= 8 chars) is searched raw/URL-encoded/base64/base64url in request target, headers, body and raw bytes (N3); refusing to forward is always accepted; " +
 			"non-trivial = the call site produced or forwarded something (not refused); distinct = (call site, token class, secret kind, length class, belongs-to-remote, placement, outcome) tuples",
 		Assume: []string{
